@@ -1,6 +1,7 @@
 //! `hvt`: tokio twins of the harnesses (humphrey built with feature `tokio`).
 
 mod areader;
+mod c01;
 mod c02;
 
 use hvcommon::args::Args;
@@ -8,6 +9,7 @@ use hvcommon::args::Args;
 fn main() {
     let args = Args::from_env();
     match args.cmd() {
+        "c01" => c01::main(&args),
         "c02" => c02::main(&args),
         other => {
             eprintln!("unknown sub-command {:?}", other);
